@@ -396,7 +396,64 @@ def judge_two_files(tf):
     return None
 
 
+def set_orders():
+    """Engine E4 on the naming of set-valued parameters: a frozenset whose iteration order is dictated (every
+    permutation of its elements) goes through the real name encoder; the name text must not depend on that order.
+    Element menus: strings, Enum members, param-class instances of two classes, mixed kinds with None."""
+    import enum, itertools, json
+    import hdl21 as h
+    from hdl21.params import hdl21_naming_encoder, _unique_name
+
+    class Ord(frozenset):
+        def __new__(cls, order):
+            o = super().__new__(cls, order)
+            o._order = list(order)
+            return o
+
+        def __iter__(self):
+            return iter(self._order)
+
+    class Corner(enum.Enum):
+        TT, FF, SS = "tt", "ff", "ss"
+
+    @h.paramclass
+    class PA:
+        w = h.Param(dtype=int, desc="w", default=1)
+
+    @h.paramclass
+    class PB:
+        w = h.Param(dtype=int, desc="w", default=1)
+
+    @h.paramclass
+    class Holder:
+        f = h.Param(dtype=object, desc="a set", default=None)
+
+    menus = {"strings": ["b", "a", "c"], "enums": [Corner.TT, Corner.FF, Corner.SS], "paramclasses": [PA(w=1), PB(w=1), PA(w=2)], "mixed": [None, "a", 1]}
+    out = []
+    n = 0
+    for mname, elems in menus.items():
+        texts, names = set(), set()
+        for perm in itertools.permutations(elems):
+            n += 1
+            try:
+                texts.add(json.dumps(Ord(perm), default=hdl21_naming_encoder, sort_keys=True))
+                hp = Holder()
+                object.__setattr__(hp, "f", Ord(perm))
+                names.add(_unique_name(hp))
+            except Exception as e:
+                out.append((mname, "naming a set raised: " + short_exc(e)))
+                break
+        if len(texts) > 1 or len(names) > 1:
+            out.append((mname, f"one set of {mname}, iterated in another order, is named differently: {sorted(names)[:2]}"))
+    return n, out
+
+
 def run(ctx):
+    n_orders, bad_orders = set_orders()
+    ctx.count(states=n_orders, transitions=n_orders, traces_validated_against_impl=n_orders)
+    ctx.fam("set_iteration_orders", cases=n_orders)
+    for mname, what in bad_orders:
+        ctx.violation(dict(shape="set:" + mname, kind="order_dependent_name", form="-"), dict(set_orders=mname), what)
     items = []
     for shape, sd in SHAPES.items():
         n = len(sd["values"])
@@ -458,6 +515,10 @@ def run(ctx):
 
 
 def replay(body):
+    if "set_orders" in body.get("case", {}):
+        n, bad = set_orders()
+        print("replay:", bad or "holds")
+        return 1 if bad else 0
     c = body["case"]
     if c.get("self_delegating"):
         bad = self_delegating(tuple(c["self_delegating"]))
